@@ -103,13 +103,15 @@ def _eval_scan(case):
         filtered = sc.real_scan(proj, root, mp, **sc.kw_for(ex, True, None, ("R", ())))
         plain = sc.real_scan(proj, root, mp, **sc.kw_for(none, True, None, ("R", ())))
         line = sc.scan_line("scan", base, tree, root, mp, ex)
+        # the same exclusion with external libraries included: an excluded file must still contribute nothing
+        filtered_ext = sc.real_scan(proj, root, mp, **sc.kw_for(ex, False, None, ("R", ()))) if case.get("with_externals") else None
         # which paths match (documented glob meaning, on the path strings the library sees)
         matched = []
         for p in tree:
             path_str = base + "".join("/" + c for c in p.split("/")[1:])
             if any(sc.glob_spec(g, path_str) for g in pats):
                 matched.append(p)
-    return filtered, plain, line, matched
+    return filtered, plain, line, matched, filtered_ext
 
 
 def _glob_to_regex(g):
@@ -122,7 +124,7 @@ def _glob_to_regex(g):
 def judge_scans(ctx, stream, cases):
     res = pmap(_eval_scan, cases, ctx.jobs, chunk=20)
     ans = run_driver([r[2] for r in res])
-    for case, (filtered, plain, line, matched), a in zip(cases, res, ans):
+    for case, (filtered, plain, line, matched, filtered_ext), a in zip(cases, res, ans):
         a = parse_answer(a)
         stream.evaluations += 1
         F, P = sc.parse_snapshot(filtered), sc.parse_snapshot(plain)
@@ -163,6 +165,14 @@ def judge_scans(ctx, stream, cases):
             bad = f"the excluded module_path still contributes modules {sorted(F[0])[:5]}"
         elif not (want_imps <= F[1] <= want_imps | allowed_extra):
             bad = f"imports between remaining modules changed: {sorted(F[1] ^ want_imps)[:5]}"
+        if not bad and filtered_ext is not None and survivors:
+            E_ = sc.parse_snapshot(filtered_ext)
+            if E_ is not None:
+                back = {n for n in E_[0] if n in gone and n not in anc}
+                into = {(u, v) for (u, v) in E_[1] if (u in gone or v in gone) and u not in anc and v not in anc}
+                if back or into:
+                    bad = (f"with external libraries included an excluded file/directory contributes again: modules {sorted(back)[:5]}, "
+                           f"imports {sorted(into)[:5]}")
         if bad:
             ctx.violations.append({"kind": "property-violation", "what": bad, "files": dict(case["tree"]), "module_path": mp,
                                    "patterns": case["pats"], "regex_form": case["regex"], "filtered": filtered, "unfiltered": plain, "model": m})
@@ -193,7 +203,7 @@ def run(ctx: Ctx):
             sc.fill_sources(rng, tree, externals=False)
             dirs = sorted(p for p, v in tree.items() if v is None)
             cases.append({"tree": tree, "root": "proj", "mp": rng.choice(dirs) if rng.random() < 0.3 else "proj",
-                          "pats": exclusion_for(rng, tree), "regex": rng.random() < 0.4})
+                          "pats": exclusion_for(rng, tree), "regex": rng.random() < 0.4, "with_externals": rng.random() < 0.5})
         judge_scans(ctx, s, cases)
         done += len(cases)
     s.finish()
